@@ -54,7 +54,7 @@ CLAIMS = {
          "the input is never interpreted as a format; for the JSight schema scanner every panic raised by a state function, a closure or Next is "
          "proved to be an error value, and if it is a positioned diagnostic its index lies inside the text (thin contract over all 62 state "
          "functions). Not decided: which byte a scanner error points at, positions produced by the loader/compiler/checker (taken from lexemes), "
-         "readability of messages. errs.f is proved to answer with the runtime-failure code exactly when the code has no format or the number of arguments differs from the number of placeholders (never because of the content of an argument), and every call <constant code>.F(args...) in the module is const-evaluated to pass as many arguments as the format has placeholders (static obligation per site; five sites with a variable code are assumptions).",
+         "readability of messages. errs.f is proved to answer with the runtime-failure code exactly when the code has no format or the number of arguments differs from the number of placeholders (never because of the content of an argument), and every call <constant code>.F(args...) in the module is const-evaluated to pass as many arguments as the format has placeholders (static obligation per site; five sites with a variable code are assumptions). The list of type names of an `or` (constraint.TypesList) is proved never to hold an empty name (an empty one is refused with diagnostic 701) and the two readers of type names index in range, so `@a |` and `type: \"\"` are answered with designed diagnostics.",
          "5 C16", "weakest-precondition VCs over go/ssa + SMT; constant evaluation of the format table"),
  "C04": ("Numeric rule values are proved never to wrap: Bytes.ParseUint/ParseInt return the exact decimal value or an error (no-wrap "
          "obligations on u*10+d), so NewMinLength/NewMaxLength/NewMinItems/NewMaxItems/NewPrecision hold exactly the written number "
@@ -71,7 +71,7 @@ CLAIMS = {
          "2^40), plus the comparator, ParseUint/ParseInt, text positions, error rendering, the string decoder, the ordered maps, the constraint constructors and validators' "
          "arithmetic, the pooled-buffer marshalers. Not decided: Scanner.Length() of the schema scanner (its bound needs the push-down discipline of the event stack), the loader, "
          "compiler, checker and OpenAPI conversion (not under contract), explicit error-valued panics inside the two scanners, memory exhaustion. Termination of recursion is proved for the key-shortcut type resolution "
-         "(checker.resolveRootType: measure = registered types minus names on the chain; a type that lists itself used to overflow the stack) and for the checker list construction (appendTypeValidators/buildList with getType: measure = registered types minus expanded names) - the other recursion guards of the checker and loader are not under contract, and stack depth as such is not modelled. "
+         "(checker.resolveRootType: measure = registered types minus names on the chain; a type that lists itself used to overflow the stack) and for the checker list construction (appendTypeValidators/buildList with getType: measure = registered types minus expanded names) and collectAllowedJsonTypes - the other recursion guards of the checker and loader are not under contract, and stack depth as such is not modelled. "
          "Length() of the enum rule scanner is proved to stay within the text and to read in range (it panicked on a rule ending inside an annotation).",
          "5 C02", "weakest-precondition VCs over go/ssa + SMT (safety obligations on every operation, decreases clauses)"),
  "C12": ("Partial. For the JSON document scanner every one of the 39 state functions is proved to implement exactly its row of a reference pushdown transducer "
